@@ -68,6 +68,28 @@ def run(chk, scratch):
         wseed = chk.seed * 10 + wi
         d = os.path.join(scratch, "w%d" % wi)
         w = world2.rich_world(wseed, zoo=world2.ZOO_ALL)
+        # the secondary records of every second multi-mapped read carry no RG tag (legal SAM; some aligners keep auxiliary tags on the primary
+        # record only): such a record is grouped as untagged wherever and whenever it is processed
+        fam_ = {}
+        for r_ in w.reads:
+            if r_.flag & 256:
+                k_ = fam_.setdefault(r_.name, len(fam_))
+                if k_ % 2 == 0:
+                    r_.tags = [t_ for t_ in r_.tags if t_[0] != "RG"]
+        # ... and reads whose RETAINED alignment is such an untagged secondary record: the primary record (tagged) lies unspliced in a gene-free
+        # stretch of the longest sequence (handled first by a single process), the secondary one is a full copy of an annotated transcript elsewhere
+        longest_ = max(w.chrom_order, key=w.chrom_len)
+        free_ = world2._free_pos(w, longest_, 1500)
+        others_ = [t_ for g_ in w.genes if g_.chrom != longest_ and not g_.id.startswith(("P", "X", "Z")) for t_ in g_.transcripts[:1] if len(t_.exons) >= 3][:4]
+        if free_ + 1500 < w.chrom_len(longest_):
+            for k_, t_ in enumerate(others_):
+                for j_ in range(2):
+                    nm_ = "mmtag%02d_%d" % (k_, j_)
+                    w.make_read(longest_, [(free_ + 40 * k_ + 7 * j_, free_ + 700)], name=nm_, flag=0, mapq=60, tags=[("RG", "g%d" % (k_ % 3))],
+                                truth={"multimap": True, "class": "tagged-primary-unspliced"})
+                    w.make_read(t_.chrom, list(t_.exons), name=nm_, flag=256 | (16 if t_.strand == "-" else 0), mapq=60, tags=[],
+                                truth={"multimap": True, "class": "untagged-secondary-wins"})
+        chk.count("secondary_records_without_the_group_tag", sum(1 for r_ in w.reads if r_.flag & 256 and not any(t_[0] == "RG" for t_ in r_.tags)))
         if (wseed // 10 + wseed % 10) % 2 == 1:
             # sequence names with dots (RefSeq / scaffold style)
             world2.rename_chroms(w, {c: ("NC_00007%d.6", "GL45621%d.1", "KI27072%d.1")[i % 3] % i for i, c in enumerate(w.chrom_order)})
